@@ -15,6 +15,10 @@ pub struct Case {
     pub int: bool,
     /// how convex_hull() receives the points: 0 MultiPoint, 1 LineString, 2 Polygon exterior
     pub wrap: u8,
+    /// f64 mode only: multiply x and y by these factors (1.1, 0.3, 1e-3 ...): generic, non-integer doubles whose
+    /// differences are not exactly representable; the oracle then works in arbitrary-precision dyadic arithmetic
+    #[serde(default)]
+    pub mul: Option<(f64, f64)>,
 }
 
 pub struct C08;
@@ -134,16 +138,109 @@ fn run<T: CoordNum + GeoNum>(c: &Case, obs: &mut Obs, fwd: &dyn Fn(i64) -> T, ba
     }
 }
 
+type PF = (f64, f64);
+
+/// exact strict hull of f64 points (monotone chain, exact orientation), counter-clockwise, not closed
+fn hull_f64(pts: &[PF]) -> Vec<PF> {
+    use crate::exact::big::orient_f64;
+    let mut p: Vec<PF> = pts.to_vec();
+    p.sort_by(|a, b| a.partial_cmp(b).unwrap());
+    p.dedup();
+    if p.len() < 3 {
+        return p;
+    }
+    let mut lower: Vec<PF> = vec![];
+    for &c in &p {
+        while lower.len() >= 2 && orient_f64(lower[lower.len() - 2], lower[lower.len() - 1], c) <= 0 {
+            lower.pop();
+        }
+        lower.push(c);
+    }
+    let mut upper: Vec<PF> = vec![];
+    for &c in p.iter().rev() {
+        while upper.len() >= 2 && orient_f64(upper[upper.len() - 2], upper[upper.len() - 1], c) <= 0 {
+            upper.pop();
+        }
+        upper.push(c);
+    }
+    lower.pop();
+    upper.pop();
+    lower.extend(upper);
+    lower
+}
+
+/// generic-double variant of the hull checks (exact oracle in dyadic arithmetic)
+fn run_generic(c: &Case, mul: (f64, f64), obs: &mut Obs) {
+    use crate::exact::big::{orient_f64, Dy};
+    let pts: Vec<PF> = c.pts.iter().map(|p| (p.0 as f64 * mul.0, p.1 as f64 * mul.1)).collect();
+    let want = hull_f64(&pts);
+    if want.len() < 3 {
+        obs.label("degenerate:fewer-than-3-non-collinear");
+        return;
+    }
+    obs.label("generic-doubles");
+    // input class for the known-findings matcher: is every coordinate difference exactly representable?
+    let exact_diff = |u: f64, v: f64| Dy::from_f64(u).sub(&Dy::from_f64(v)).to_f64() == u - v && Dy::from_f64(u - v).sub(&Dy::from_f64(u).sub(&Dy::from_f64(v))).is_zero();
+    let all_exact = pts.iter().all(|a| pts.iter().all(|b| exact_diff(a.0, b.0) && exact_diff(a.1, b.1)));
+    let class = if all_exact { "" } else { "|inexact-differences" };
+    if !all_exact {
+        obs.label("inexact-differences");
+    }
+    let wset: std::collections::BTreeSet<(u64, u64)> = want.iter().map(|p| ((p.0 + 0.0).to_bits(), (p.1 + 0.0).to_bits())).collect();
+    let n = want.len();
+    if pts.iter().any(|p| !wset.contains(&((p.0 + 0.0).to_bits(), (p.1 + 0.0).to_bits())) && (0..n).any(|i| orient_f64(want[i], want[(i + 1) % n], *p) == 0)) {
+        obs.label("input-point-on-hull-edge");
+        obs.nontrivial();
+    }
+    let coords: Vec<Coord<f64>> = pts.iter().map(|p| Coord { x: p.0, y: p.1 }).collect();
+    let ctx = || format!("f64 generic pts={:?} (lattice {:?} x {:?})", pts, c.pts, mul);
+    let mut v1 = coords.clone();
+    let mut v2 = coords.clone();
+    let results = [
+        ("quick_hull", guard(std::panic::AssertUnwindSafe(|| quick_hull(&mut v1)))),
+        ("graham_hull", guard(std::panic::AssertUnwindSafe(|| graham_hull(&mut v2, false)))),
+        ("convex_hull", guard(std::panic::AssertUnwindSafe(|| MultiPoint::new(coords.iter().map(|c| Point(*c)).collect()).convex_hull().exterior().clone()))),
+    ];
+    for (name, r) in results {
+        match r {
+            Err(p) => obs.fail(format!("{name}:f64|panic|{}", p.site()), format!("{} {}", p, ctx())),
+            Ok(ring) => {
+                let r: Vec<PF> = ring.0.iter().map(|c| (c.x, c.y)).collect();
+                let key = |s: &str| format!("{name}:f64|{s}{class}");
+                obs.expect(r.len() >= 4 && r.first() == r.last(), &key("not-closed"), || format!("{:?}; {}", r, ctx()));
+                if r.len() < 4 || r.first() != r.last() {
+                    continue;
+                }
+                let open = &r[..r.len() - 1];
+                let m = open.len();
+                let got: std::collections::BTreeSet<(u64, u64)> = open.iter().map(|p| ((p.0 + 0.0).to_bits(), (p.1 + 0.0).to_bits())).collect();
+                obs.expect(got.len() == m, &key("repeated-vertex"), || format!("{:?}; {}", r, ctx()));
+                let strict = (0..m).all(|i| orient_f64(open[i], open[(i + 1) % m], open[(i + 2) % m]) > 0);
+                obs.expect(strict, &key("not-strictly-convex-ccw"), || format!("{:?}; {}", r, ctx()));
+                let contains = pts.iter().all(|p| (0..m).all(|i| orient_f64(open[i], open[(i + 1) % m], *p) >= 0));
+                obs.expect(contains, &key("input-outside-hull"), || format!("{:?}; {}", r, ctx()));
+                obs.expect(got == wset, &key("vertex-set-differs-from-exact-hull"), || format!("got {:?} want {:?}; {}", open, want, ctx()));
+            }
+        }
+    }
+}
+
 impl Property for C08 {
     type Case = Case;
     const ID: &'static str = "C08";
     fn strategy(_tier: Tier) -> BoxedStrategy<Case> {
-        (pts_strategy(), any::<bool>(), 0u8..3)
+        let generic = (
+            prop_oneof![(2i64..7).prop_flat_map(|g| proptest::collection::vec((0..g, 0..g), 3..14)), proptest::collection::vec((-50i64..50, -50i64..50), 3..14)],
+            prop_oneof![Just(1.1f64), Just(0.3), Just(0.9), Just(1e-3), Just(3.3333333333333335), Just(7.1e5)],
+            prop_oneof![Just(0.9f64), Just(0.3), Just(1.1), Just(1e-3), Just(0.7), Just(1.0)],
+        )
+            .prop_map(|(pts, mx, my)| Case { pts, int: false, wrap: 0, mul: Some((mx, my)) });
+        let lattice = (pts_strategy(), any::<bool>(), 0u8..3)
             .prop_map(|(pts, int, wrap)| {
                 let int = int && pts.iter().all(|p| p.0.abs() < (1 << 29) && p.1.abs() < (1 << 29));
-                Case { pts, int, wrap }
-            })
-            .boxed()
+                Case { pts, int, wrap, mul: None }
+            });
+        prop_oneof![12 => lattice, 1 => generic].boxed()
     }
     fn quota(tier: Tier) -> u64 {
         tier.pick(5_000_000, 80_000_000)
@@ -165,6 +262,15 @@ impl Property for C08 {
     fn check(c: &Case, obs: &mut Obs) {
         if c.pts.iter().any(|p| p.0.abs() >= (1 << 52) || p.1.abs() >= (1 << 52)) {
             obs.label("skipped:out-of-domain");
+            return;
+        }
+        if let Some(mul) = c.mul {
+            if !(mul.0.is_finite() && mul.1.is_finite() && mul.0.abs() > 1e-6 && mul.0.abs() < 1e7 && mul.1.abs() > 1e-6 && mul.1.abs() < 1e7) || c.pts.len() > 24 {
+                obs.label("skipped:out-of-domain");
+                return;
+            }
+            obs.label("scalar:f64");
+            run_generic(c, mul, obs);
             return;
         }
         if c.int && c.pts.iter().all(|p| p.0.abs() < (1 << 29) && p.1.abs() < (1 << 29)) {
